@@ -42,4 +42,79 @@ theorem compactTop_printed (S : LeafSpec ev G) (hL : ∀ l, G l → LeafPrintOK 
   simp only [gsem, List.any_map]
   exact any_congr_mem gs _ _ (fun g hgm => (groupMarker_spec S g (h2 g hgm)).2)
 
+/-! ### a printed marker neither starts with a blank nor ends with white space -/
+
+/-- first character not a blank or tab, last character not white space -/
+def Ends (l : List Char) : Prop :=
+  (∃ c r, l = c :: r ∧ c ≠ ' ' ∧ c ≠ '\t') ∧ (∃ p z, l = p ++ [z] ∧ isSpace z = false)
+
+def endsB (l : List Char) : Bool :=
+  (match l with | c :: _ => c != ' ' && c != '\t' | [] => false) &&
+  (match l.reverse with | z :: _ => !isSpace z | [] => false)
+
+theorem ends_of_endsB (l : List Char) (h : endsB l = true) : Ends l := by
+  unfold endsB at h
+  simp only [Bool.and_eq_true] at h
+  obtain ⟨h1, h2⟩ := h
+  constructor
+  · cases l with
+    | nil => simp at h1
+    | cons c r => simp at h1; exact ⟨c, r, rfl, h1.1, h1.2⟩
+  · cases hr : l.reverse with
+    | nil => simp [hr] at h2
+    | cons z p =>
+      simp [hr] at h2
+      refine ⟨p.reverse, z, ?_, h2⟩
+      have := congrArg List.reverse hr
+      simpa using this
+
+theorem names_ends (n : String) (hn : n ∈ names) : Ends n.toList := by
+  apply ends_of_endsB
+  rw [names_list] at hn
+  simp only [List.mem_cons, List.mem_nil_iff, or_false] at hn
+  rcases hn with rfl | rfl | rfl | rfl | rfl | rfl | rfl | rfl | rfl | rfl | rfl | rfl | rfl | rfl | rfl | rfl | rfl | rfl <;>
+    decide
+
+theorem ends_append_left (a b : List Char) (ha : ∃ c r, a = c :: r ∧ c ≠ ' ' ∧ c ≠ '\t')
+    (hb : ∃ p z, b = p ++ [z] ∧ isSpace z = false) : Ends (a ++ b) := by
+  obtain ⟨c, r, rfl, h1, h2⟩ := ha
+  obtain ⟨p, z, rfl, hz⟩ := hb
+  exact ⟨⟨c, r ++ (p ++ [z]), by simp, h1, h2⟩, ⟨c :: r ++ p, z, by simp, hz⟩⟩
+
+mutual
+theorem Atom.chars_ends : ∀ a : Atom, a.Lexable → Ends a.chars
+  | .item n op v false, h => by
+    obtain ⟨⟨c, r, hcr, h1, h2⟩, _⟩ := names_ends n h.1
+    refine ⟨⟨c, r ++ ' ' :: (op.toList ++ ' ' :: '"' :: (v.toList ++ ['"'])), by simp [Atom.chars, hcr], h1, h2⟩, ?_⟩
+    exact ⟨n.toList ++ ' ' :: (op.toList ++ ' ' :: '"' :: v.toList), '"', by simp [Atom.chars], by decide⟩
+  | .item n op v true, h => by
+    obtain ⟨_, ⟨p, z, hpz, hz⟩⟩ := names_ends n h.1
+    refine ⟨⟨'"', _, rfl, by decide, by decide⟩, ?_⟩
+    exact ⟨'"' :: (v.toList ++ '"' :: ' ' :: (op.toList ++ ' ' :: p)), z, by simp [Atom.chars, hpz], hz⟩
+  | .paren m, h => ⟨⟨'(', _, rfl, by decide, by decide⟩, ⟨'(' :: m.chars, ')', by simp [Atom.chars], by decide⟩⟩
+theorem Syn.chars_ends : ∀ t : Syn, t.Lexable → Ends t.chars
+  | .one a, h => Atom.chars_ends a h
+  | .more a isOr rest, h => by
+    have ha := Atom.chars_ends a h.1
+    have hr := Syn.chars_ends rest h.2
+    obtain ⟨p, z, hpz, hz⟩ := hr.2
+    have := ends_append_left a.chars ((if isOr then " or " else " and ").toList ++ rest.chars) ha.1
+      ⟨(if isOr then " or " else " and ").toList ++ p, z, by rw [hpz]; simp, hz⟩
+    simpa [Syn.chars] using this
+end
+
+/-- **the printed text of a marker of the domain has no leading blank and no trailing white space** -/
+theorem toStr_ends {m : M} {t : Syn} (S : LeafSpec ev G) (hL : ∀ l, G l → LeafPrintOK ev G l)
+    (hX : ∀ l, G l → Leaf.Lexable l) (hg : M.Good G m) (h : M.toSyn m = some t) (s : String) (hs : M.toStr m = .ok s) :
+    skipWs s.toList = s.toList ∧ ∃ p z, s.toList = p ++ [z] ∧ isSpace z = false := by
+  have hlex : t.Lexable := M.toSyn_lexable m t (M.good_mono hX m hg) h
+  have htext := (M.print_ok S hL m t hg h).text
+  rw [hs] at htext
+  injection htext with htext
+  rw [htext, Syn.text_chars t hlex]
+  obtain ⟨⟨c, r, hcr, h1, h2⟩, hlast⟩ := Syn.chars_ends t hlex
+  refine ⟨?_, hlast⟩
+  rw [hcr]
+  exact skipWs_nonblank c r h1 h2
+
 end Poetry.Dep
